@@ -26,14 +26,28 @@ impl SnapDir { #[verifier::external_body] pub fn as_ref(&self) -> &SnapDir { uni
 // after its end frame was handed out
 pub struct Session { pub filler: u8 }
 impl Session {
-    pub uninterp spec fn ended(&self) -> bool;
+    pub uninterp spec fn ended(&self) -> bool;      // the kernel session machine is done (stage Done in rip-kernel)
+    pub uninterp spec fn fresh(&self) -> bool;      // nothing handed out yet (stage Start)
     #[verifier::external_body] pub fn id(&self) -> &String { unimplemented!() }
     #[verifier::external_body] pub fn seq(&self) -> u64 { unimplemented!() }
-    #[verifier::external_body] pub fn set_seq(&mut self, s: u64) ensures final(self).ended() == old(self).ended() { unimplemented!() }
-    #[verifier::external_body] pub fn next_event(&mut self) -> (r: Option<Event>) ensures r is None ==> final(self).ended() { unimplemented!() }
+    #[verifier::external_body] pub fn set_seq(&mut self, s: u64) ensures final(self).ended() == old(self).ended(), !final(self).fresh() { unimplemented!() }
+    // as proved in unit c01_emit (Session::next_event): a finished session hands out nothing, None only when finished, and the frame that
+    // finishes the session is its end frame (so the machine hands out exactly one end frame, last).
+    // ASSUMED (read off rip-kernel, not proved: the authority builds its Runtime with Runtime::new(), which registers no hook, so no
+    // hook can abort a session): the first frame of a fresh session is its start frame, not an end frame.
+    #[verifier::external_body] pub fn next_event(&mut self) -> (r: Option<Event>)
+        ensures
+            r is None <==> old(self).ended(),
+            r is None ==> final(self).ended(),
+            r matches Some(e) ==> (e.kind is SessionEnded <==> final(self).ended()),
+            old(self).fresh() ==> (r is Some && !final(self).ended()),
+            !final(self).fresh(),
+    { unimplemented!() }
 }
+// the session stream as this function writes it: how many end frames were written so far
+pub tracked struct SessStream { pub ghost end_frames: int }
 pub struct Runtime { pub filler: u8 }
-impl Runtime { #[verifier::external_body] pub fn start_session_with_id(&self, id: String, input: String) -> Session { unimplemented!() } }
+impl Runtime { #[verifier::external_body] pub fn start_session_with_id(&self, id: String, input: String) -> (s: Session) ensures s.fresh() && !s.ended() { unimplemented!() } }
 pub struct ToolInvocation { pub name: String, pub args: Value, pub timeout_ms: Option<u64> }
 pub struct ToolRunner { pub filler: u8 }
 impl ToolRunner {
@@ -56,8 +70,16 @@ impl Events { #[verifier::external_body] pub fn lock(&self) -> EventsGuard { uni
 pub struct EventLog { pub filler: u8 }
 impl EventLog { #[verifier::external_body] pub fn as_ref(&self) -> &EventLog { unimplemented!() } }
 #[verifier::external_body] pub fn write_snapshot(dir: &SnapDir, id: &String, g: &EventsGuard) -> Result<(), String> { unimplemented!() }
-#[verifier::external_body] pub fn emit_event(e: Event, s: &Sender, ev: &Events, log: &EventLog) { unimplemented!() }
-#[verifier::external_body] pub fn emit_events(e: Vec<Event>, s: &Sender, ev: &Events, log: &EventLog) { unimplemented!() }
+// every writer of the session stream: nothing is written after the end frame, and an end frame is counted
+#[verifier::external_body] pub fn emit_event(Tracked(st): Tracked<&mut SessStream>, e: Event, s: &Sender, ev: &Events, log: &EventLog)
+    requires old(st).end_frames == 0,                         // [session_stream.nothing_is_written_after_the_end_frame]
+    ensures final(st).end_frames == old(st).end_frames + (if e.kind is SessionEnded { 1int } else { 0int }),
+{ unimplemented!() }
+// tool / checkpoint frames (ToolRunner::run and the checkpoint calls hand back tool frames only: assumed, their kinds are not looked at here)
+#[verifier::external_body] pub fn emit_events(Tracked(st): Tracked<&mut SessStream>, e: Vec<Event>, s: &Sender, ev: &Events, log: &EventLog)
+    requires old(st).end_frames == 0,                         // [session_stream.nothing_is_written_after_the_end_frame]
+    ensures final(st).end_frames == old(st).end_frames,
+{ unimplemented!() }
 #[derive(Clone, Copy)]
 pub struct EventSink<'a> { pub sender: &'a Sender, pub buffer: &'a Events, pub event_log: &'a EventLog }
 pub struct ItemParam { pub filler: u8 }
@@ -90,7 +112,11 @@ pub struct OpenResponsesRunContext<'a> {
     pub http: &'a HttpClient, pub config: &'a OpenResponsesConfig, pub tool_runner: &'a ToolRunner, pub workspace_lock: &'a WorkspaceLock, pub continuities: &'a ContinuityStore,
     pub continuity_run: Option<&'a ContinuityRunLink>, pub session_id: &'a String, pub initial_items: Option<Vec<ItemParam>>, pub prompt: &'a String, pub seq: &'a mut u64, pub sink: EventSink<'a>,
 }
-#[verifier::external_body] pub fn run_openresponses_agent_loop(ctx: OpenResponsesRunContext<'_>) -> OpenResponsesLoopOutcome { unimplemented!() }
+// the agent loop writes provider / tool frames through the sink and leaves the end frame to its caller (assumed; the loop is under contract in c16_loop)
+#[verifier::external_body] pub fn run_openresponses_agent_loop(Tracked(st): Tracked<&mut SessStream>, ctx: OpenResponsesRunContext<'_>) -> OpenResponsesLoopOutcome
+    requires old(st).end_frames == 0,                         // [session_stream.nothing_is_written_after_the_end_frame]
+    ensures final(st).end_frames == old(st).end_frames,
+{ unimplemented!() }
 pub struct SessionContext {
     pub runtime: Runtime, pub tool_runner: ToolRunner, pub workspace_lock: WorkspaceLock, pub http_client: HttpClient, pub openresponses: Option<OpenResponsesConfig>,
     pub sender: Sender, pub events: Events, pub event_log: EventLog, pub snapshot_dir: SnapDir, pub continuities: ContinuityStore,
@@ -111,24 +137,29 @@ pub assume_specification<T: std::ops::Deref>[ std::option::Option::<T>::as_deref
 //@@ rewrite let _ = continuities.append_context_selection_decided( => proof { assert(stage == 0); stage = 1; } let _ = continuities.append_context_selection_decided(
 //@@ rewrite let _ = continuities.append_context_compiled( => proof { assert(stage == 1); stage = 2; } let _ = continuities.append_context_compiled(
 //@@ rewrite let _ = continuities.append_tool_side_effects( => proof { assert(stage == 0); stage = 3; } let _ = continuities.append_tool_side_effects(
-//@@ rewrite let outcome = run_openresponses_agent_loop( => proof { assert(stage == 0 || stage == 2); stage = 3; } let outcome = run_openresponses_agent_loop(
+//@@ rewrite let outcome = run_openresponses_agent_loop( => proof { assert(stage == 0 || stage == 2); stage = 3; } let outcome = run_openresponses_agent_loop(Tracked(&mut st), 
 //@@ rewrite let _ = continuities.append_provider_cursor_updated( => proof { assert(stage == 3); stage = 4; } let _ = continuities.append_provider_cursor_updated(
 //@@ rewrite skip_runtime_loop = true; => skip_runtime_loop = true; proof { session_end = true; }
 //@@ rewrite let _ = continuities.append_run_ended( => proof { assert(session_end && ended == 0); ended = ended + 1; } let _ = continuities.append_run_ended(
+//@@ rewrite emit_event( => emit_event(Tracked(&mut st), 
+//@@ rewrite emit_events( => emit_events(Tracked(&mut st), 
 //@@ sig
 //@@ entry
+    let tracked mut st = SessStream { end_frames: 0 };
     let ghost mut stage: int = 0;
     let ghost mut ended: int = 0;
     let ghost mut session_end: bool = false;
     let ghost linked: bool = context.continuity_run is Some;
 //@@ loop 0
     invariant !skip_runtime_loop,
-    ensures session.ended(),
+        st.end_frames == (if session.ended() { 1int } else { 0int }),      // [run_session.the_session_stream_ends_with_exactly_one_end_frame]
+    ensures session.ended(), st.end_frames == 1,
 //@@ afterloop 0
     proof { session_end = true; }
 //@@ noreturn
 //@@ fnend
     proof { assert(ended == (if linked { 1int } else { 0int })); }      // [run_session.exactly_one_run_ended_frame_after_the_terminal_session_frame]
+    proof { assert(st.end_frames == 1); }      // [run_session.the_session_stream_ends_with_exactly_one_end_frame]
 //@@ end
 
 } // verus!
